@@ -413,7 +413,21 @@ func mergedSchema(base, top *schema.Schema) *schema.Schema {
 		}
 	}
 
-	return schema.Record(record).AdditionalProperties(additional).Schema()
+	// A property is required in the merged object iff one of the two layers requires it. (schema.Record would require every
+	// declared property, including the optional ones of a provider's output schema.)
+	seen := make(map[string]struct{}, len(base.Required)+len(top.Required))
+	required := make([]string, 0, len(base.Required)+len(top.Required))
+	for _, names := range [][]string{base.Required, top.Required} {
+		for _, name := range names {
+			if _, ok := seen[name]; !ok {
+				seen[name] = struct{}{}
+				required = append(required, name)
+			}
+		}
+	}
+	sort.Strings(required)
+
+	return schema.Object().Properties(record).Required(required...).AdditionalProperties(additional).Schema()
 }
 
 type copier struct {
